@@ -342,7 +342,7 @@ func init() {
 		return &Check{ID: "C20",
 			Runs: []Run{{S: c20Scenario(), Opt: map[Tier]Options{
 				Quick:    {Depth: 2, Budget: 120 * time.Second, ReplayEvery: 8},
-				Thorough: {Depth: 4, Budget: 25 * time.Minute, ReplayEvery: 32, MaxStates: 100000},
+				Thorough: {Depth: 4, Budget: 15 * time.Minute, ReplayEvery: 32, MaxStates: 100000},
 			}}},
 			Owns: ownsAny("listquery"),
 			Extra: func(t Tier, ev *Evidence) []Violation {
